@@ -427,8 +427,18 @@ extern "C" fn on_segv(sig: libc::c_int, info: *mut libc::siginfo_t, ctx: *mut li
         // instruction bytes at the saved RIP (never read across a page end blindly)
         let rip = (*uc).uc_mcontext.gregs[libc::REG_RIP as usize] as usize;
         let mut code = [0u8; 15];
-        let room = (PAGE - (rip & (PAGE - 1))).min(15);
-        std::ptr::copy_nonoverlapping(rip as *const u8, code.as_mut_ptr(), room);
+        // The instruction may straddle a page end, and the page after it need not be mapped beyond
+        // the instruction's last byte: let the kernel copy as much as is readable (never faults);
+        // fall back to the bytes up to the end of this page.
+        let mut room = (PAGE - (rip & (PAGE - 1))).min(15);
+        let local = libc::iovec { iov_base: code.as_mut_ptr() as *mut libc::c_void, iov_len: 15 };
+        let remote = libc::iovec { iov_base: rip as *mut libc::c_void, iov_len: 15 };
+        let n = libc::process_vm_readv(libc::getpid(), &local, 1, &remote, 1, 0);
+        if n > 0 {
+            room = n as usize;
+        } else {
+            std::ptr::copy_nonoverlapping(rip as *const u8, code.as_mut_ptr(), room);
+        }
         let mut regs = [0u64; 16];
         for (i, r) in HW_REGS.iter().enumerate() {
             regs[i] = (*uc).uc_mcontext.gregs[*r as usize] as u64;
